@@ -69,12 +69,18 @@ func c01Split(c *Ctx) {
 	}
 	key := func(s string) string { return "dhcpv4.Options.Marshal: " + s }
 	// the chunk loop: a loop whose header tests len(data) > 0 with data a φ
+	// the value write may sit in an unexported helper of the package that Marshal calls (marshalOption(b, code, data))
 	var wb *ssa.Call
-	allInstrs(f, func(in ssa.Instruction) {
-		if cl, ok := in.(*ssa.Call); ok && cl.Call.StaticCallee() != nil && strings.HasSuffix(funcKey(cl.Call.StaticCallee()), "uio.Lexer).WriteBytes") {
-			wb = cl
-		}
-	})
+	for _, g := range marshalHelpers(c, f) {
+		allInstrs(g, func(in ssa.Instruction) {
+			if cl, ok := in.(*ssa.Call); ok && wb == nil && cl.Call.StaticCallee() != nil && strings.HasSuffix(funcKey(cl.Call.StaticCallee()), "uio.Lexer).WriteBytes") {
+				wb = cl
+			}
+		})
+	}
+	if wb != nil {
+		f = wb.Parent()
+	}
 	if wb == nil {
 		r.Undecided("C01-K3", key("value write"), c.P.pos(f.Pos()), "no WriteBytes")
 		return
@@ -194,4 +200,22 @@ func c09Reassembly2(c *Ctx, rule string) {
 		r.Check(strings.Contains(ks, "uio.Lexer).Read8]"), rule, "dhcpv4.fromBytesCheckEnd: key is the code byte of this instance", c.P.ipos(mu), "symx", "key is "+ks)
 	})
 	r.Check(n == 1, rule, "dhcpv4.fromBytesCheckEnd: one store per option instance", c.P.pos(fn.Pos()), "instance count", fmt.Sprintf("%d map stores", n))
+}
+
+// marshalHelpers: f and the functions of its own package it reaches through static calls (depth ≤ 3), f first;
+// the key sorter is not part of the write path
+func marshalHelpers(c *Ctx, f *ssa.Function) []*ssa.Function {
+	out := []*ssa.Function{f}
+	seen := map[*ssa.Function]bool{f: true}
+	for i := 0; i < len(out) && i < 8; i++ {
+		allInstrs(out[i], func(in ssa.Instruction) {
+			if cl, ok := in.(*ssa.Call); ok {
+				if g := cl.Call.StaticCallee(); g != nil && g.Blocks != nil && g.Pkg == f.Pkg && !seen[g] && g.Name() != "sortedKeys" {
+					seen[g] = true
+					out = append(out, g)
+				}
+			}
+		})
+	}
+	return out
 }
